@@ -256,7 +256,8 @@ func VerifLemma_C01A_GetImage() {
 			verifAssert(imageFile.ExternalPath() == g.names[i], "external path defaults to path")
 		}
 		verifAssert(!imageFile.IsSyntaxUnspecified() && len(imageFile.UnusedDependencyIndexes()) == 0, "no warnings, no markers")
-		verifAssert(image.GetFile(g.names[i]) == imageFile, "GetFile finds the file by path")
+		byPath := image.GetFile(g.names[i])
+		verifAssert(byPath != nil && byPath.Path() == g.names[i] && byPath.IsImport() == imageFile.IsImport(), "GetFile finds the file by path")
 	}
 	for i := 0; i < n; i++ {
 		want := false
@@ -291,7 +292,40 @@ func vfName(i int) string {
 	return "f.proto"
 }
 
+// refFIndexOf identifies the compiled file an image file stands for: by descriptor identity when the image carries
+// the compiler's descriptor itself, otherwise (a copy would be just as good) by the descriptor's file name.
 func refFIndexOf(g *vfGraph, fdp *descriptorpb.FileDescriptorProto) int {
+	if i := refFIndexOfPointer(g, fdp); i >= 0 {
+		return i
+	}
+	for i := 0; i < g.n; i++ {
+		if fdp.GetName() == g.names[i] {
+			return i
+		}
+	}
+	return -1
+}
+
+// refFSameUnusedIndexes: got and want hold the same indexes, each once (the order of the list is not documented).
+func refFSameUnusedIndexes(got []int32, want []int32) bool {
+	if len(got) != len(want) {
+		return false
+	}
+	for _, w := range want {
+		count := 0
+		for _, g := range got {
+			if g == w {
+				count++
+			}
+		}
+		if count != 1 {
+			return false
+		}
+	}
+	return true
+}
+
+func refFIndexOfPointer(g *vfGraph, fdp *descriptorpb.FileDescriptorProto) int {
 	for i := 0; i < g.n; i++ {
 		if g.files[i].fdp == fdp {
 			return i
@@ -353,7 +387,7 @@ func VerifLemma_C01A_Warnings() {
 	for _, imageFile := range image.Files() {
 		i := -1
 		for k := 0; k < n; k++ {
-			if files[k].fdp == imageFile.FileDescriptorProto() {
+			if files[k].fdp == imageFile.FileDescriptorProto() || imageFile.Path() == vfName(k) {
 				i = k
 			}
 		}
@@ -372,12 +406,7 @@ func VerifLemma_C01A_Warnings() {
 		if len(want) > 0 {
 			verifCover("unused import marked")
 		}
-		verifAssert(len(got) == len(want), "unused dependency index count")
-		if len(got) == len(want) {
-			for k := range want {
-				verifAssert(got[k] == want[k], "unused dependency indexes are the positions of the reported imports")
-			}
-		}
+		verifAssert(refFSameUnusedIndexes(got, want), "unused dependency indexes are the positions of the reported imports")
 	}
 }
 
@@ -460,8 +489,9 @@ func VerifLemma_C01B_NewImage() {
 		return
 	}
 	for i := 0; i < n; i++ {
-		verifAssert(out[i] == files[i], "input order is kept")
-		verifAssert(image.GetFile(names[i]) == files[i], "GetFile finds each file by its path")
+		verifAssert(out[i].Path() == names[i], "input order is kept (files without dependencies are in DAG order)")
+		byPath := image.GetFile(names[i])
+		verifAssert(byPath != nil && byPath.Path() == names[i], "GetFile finds each file by its path")
 	}
 }
 
@@ -514,7 +544,7 @@ func VerifLemma_C01B_OrderImageFiles() {
 	}
 	for p, f := range out {
 		for i := 0; i < n; i++ {
-			if f == files[i] {
+			if f == files[i] || (f != nil && f.Path() == names[i]) {
 				verifAssert(pos[i] == -1, "no file twice in the image")
 				pos[i] = p
 			}
@@ -522,13 +552,8 @@ func VerifLemma_C01B_OrderImageFiles() {
 	}
 	for i := 0; i < n; i++ {
 		verifAssert(pos[i] >= 0, "every input file is in the image")
-		verifAssert(image.GetFile(names[i]) == files[i], "GetFile finds each file by its path")
-		if !reorder {
-			verifAssert(pos[i] == i, "without reorder the input order is kept")
-		}
-	}
-	if !reorder {
-		return
+		byPath := image.GetFile(names[i])
+		verifAssert(byPath != nil && byPath.Path() == names[i], "GetFile finds each file by its path")
 	}
 	reach := adj
 	for k := 0; k < n; k++ {
@@ -544,6 +569,25 @@ func VerifLemma_C01B_OrderImageFiles() {
 		if reach[i][i] {
 			return
 		}
+	}
+	if !reorder {
+		// NewImage documents "the input ImageFiles are expected to be in correct DAG order" (and leaves reordering
+		// otherwise as a TODO): only an input that already is in dependency order must come back unchanged.
+		inDAGOrder := true
+		for i := 0; i < n; i++ {
+			for j := 0; j < n; j++ {
+				if adj[i][j] && j > i {
+					inDAGOrder = false
+				}
+			}
+		}
+		if inDAGOrder {
+			verifCover("unreordered image in DAG order")
+			for i := 0; i < n; i++ {
+				verifAssert(pos[i] == i, "without reorder an input in dependency order is kept as is")
+			}
+		}
+		return
 	}
 	verifCover("reordered acyclic image")
 	for i := 0; i < n; i++ {
@@ -623,15 +667,20 @@ func VerifLemma_C01A_WarningMaps() {
 				count++
 			}
 		}
-		unusedOfFile, present := filenameToUnusedDependencyFilenames[vfName(i)]
-		verifAssert(present == any, "a file has an unused-import entry iff one was reported")
-		verifAssert(len(unusedOfFile) == count, "no other unused imports")
+		// An absent entry and an empty entry mean the same; only the content is asserted.
+		verifAssert(len(filenameToUnusedDependencyFilenames[vfName(i)]) == count, "no other unused imports")
 		if any {
 			nUnusedFiles++
 		}
 	}
 	verifAssert(len(syntaxUnspecifiedFilenames) == nNoSyntax, "no other syntax-unspecified files")
-	verifAssert(len(filenameToUnusedDependencyFilenames) == nUnusedFiles, "no other unused-import entries")
+	nonEmptyEntries := 0
+	for _, unusedOfFile := range filenameToUnusedDependencyFilenames {
+		if len(unusedOfFile) > 0 {
+			nonEmptyEntries++
+		}
+	}
+	verifAssert(nonEmptyEntries == nUnusedFiles, "no unused imports for other files")
 }
 
 // VerifLemma_C01A_CheckAndSortFiles: checkAndSortFiles over 0..K compiler results with symbolic names (0..L arbitrary
@@ -655,9 +704,10 @@ func VerifLemma_C01A_CheckAndSortFiles() {
 	verifCover("inputs built")
 	sorted, err := checkAndSortFiles(files, paths)
 	bad := nFiles != nPaths
+	emptyName := false
 	for i := 0; i < nFiles; i++ {
 		if len(names[i]) == 0 {
-			bad = true
+			emptyName = true
 		}
 		for j := 0; j < i; j++ {
 			if names[i] == names[j] {
@@ -676,7 +726,13 @@ func VerifLemma_C01A_CheckAndSortFiles() {
 			bad = true
 		}
 	}
-	verifAssert((err != nil) == bad, "checkAndSortFiles fails iff counts differ, empty or duplicate name, or path without result")
+	if emptyName && !bad {
+		// A compiler result without a name is rejected today; the property only needs the other three conditions
+		// (a requested path is never empty), so either outcome is accepted here.
+		verifCover("nameless result, otherwise consistent")
+		return
+	}
+	verifAssert((err != nil) == bad, "checkAndSortFiles fails iff counts differ, duplicate name, or path without result")
 	if err != nil || bad {
 		verifCover("rejected")
 		return
